@@ -1043,6 +1043,7 @@ private:
                         uint32_t num_records,
                         uint32_t threshold,
                         uint32_t offset);
+    void check_records(uint32_t section_start, uint32_t num_records) const;
     uint8_t* update_dname(uint8_t* ptr, uint32_t threshold, uint32_t offset);
     static void inline_convert_v4(uint32_t value, char* output);
     static bool contains_dname(uint16_t type);
